@@ -16,6 +16,7 @@ from concurrent.futures import ThreadPoolExecutor
 HERE = os.path.dirname(os.path.dirname(os.path.abspath(__file__)))
 SEEDED = os.path.join(HERE, 'seeded')
 OUT = os.path.join(HERE, 'out', 'seed_results')
+RETARGET = json.load(open(os.path.join(SEEDED, 'RETARGET.json'))) if os.path.exists(os.path.join(SEEDED, 'RETARGET.json')) else {}
 
 
 def one(sid, tests):
@@ -48,7 +49,7 @@ def main(argv):
         if 'eval_error' in r:
             print(sid, 'EVAL-ERROR', r)
             continue
-        p = sid.split('-')[0]
+        p = RETARGET.get(sid, {}).get('property', sid.split('-')[0])   # (a seed that breaks another property than the one it was written for: seeded/RETARGET.json)
         fired = r.get('checks_fired', [])
         own = p in fired
         verdict = 'CAUGHT by own check' if own else ('caught by other' if fired else 'MISSED')
